@@ -1,0 +1,10 @@
+//go:build verif
+
+package math
+
+// Contracts for the deductive verification in /verif (comment-only file; the
+// build tag keeps it out of every ordinary build).
+
+// ---- determinism and thread-compatibility (C03, C05): the package keeps no state of its own
+// between calls -- no function writes a package-level variable
+//@ globals_readonly [C03,C05] none
